@@ -1,12 +1,52 @@
 (** C19 — the pool neither loses accepted transactions nor misreports its content.
-    Statements only, each closed by [exact]; proofs in Proofs/Mempool*.v (same model and
-    reachability notion as C18). *)
+    Statements only, each closed by [exact]; proofs in Proofs/Mempool*.v (same model, histories and
+    trace predicates as C18; see the header of Properties/C18.v). *)
 From BX Require Import Base.Prelude Model.Mempool Model.MempoolSpec.
-From BX Require Import Proofs.MempoolLib Proofs.MempoolInv Proofs.MempoolGen Proofs.MempoolReach Proofs.MempoolProofs.
+From BX Require Import Proofs.MempoolLib Proofs.MempoolInv Proofs.MempoolGen Proofs.MempoolReach
+  Proofs.MempoolTrace3 Proofs.MempoolProofs.
 Local Open Scope N_scope.
 
-(** the pending nonce is exactly the first missing nonce counted from the commit nonce, and
-    nothing is held below the commit nonce *)
+(** every C19 predicate on every history, in one statement ... *)
+Theorem C19_all_histories : forall p accts univ ops, good_history accts univ ops ->
+  P p accts univ C19_codes (run cfg_fixed p accts univ empty_state ops).
+Proof. exact P_C19_all. Qed.
+Print Assumptions C19_all_histories.
+
+(** ... and clause by clause.
+
+    no silent loss: whenever a transaction that was retrievable by its hash stops being so, the
+    step is a commit (or generate+commit rounds) that moved the commit nonce past it, or a
+    submission that put another transaction into its (account, nonce) slot, or the age rule
+    applied to it while it was older than the tolerance, not ready (nonce >= pending nonce) and
+    not batched, or a restart; and every submitted transaction at/above the pending nonce that is
+    the first of its slot in the call and was never submitted before IS taken *)
+Theorem C19_no_silent_loss : forall p accts univ ops i, good_history accts univ ops ->
+  ~ In (E_lost, i) (model_fails p accts univ ops) /\ ~ In (E_not_admitted, i) (model_fails p accts univ ops).
+Proof. exact (fun p accts univ ops i H => conj (code_never p accts univ ops E_lost i H) (code_never p accts univ ops E_not_admitted i H)). Qed.
+Print Assumptions C19_no_silent_loss.
+
+(** liveness on traces: after k >= ceil(ready / batchSize) rounds of (GenerateBlock; commit of that
+    batch) every transaction that was held, ready and unbatched before is in one of the batches *)
+Theorem C19_eventually_batched : forall p accts univ ops i, good_history accts univ ops ->
+  ~ In (E_liveness, i) (model_fails p accts univ ops).
+Proof. exact (fun p accts univ ops i => code_never p accts univ ops E_liveness i). Qed.
+Print Assumptions C19_eventually_batched.
+
+(** the same for states: explicit bound, finite continuation *)
+Theorem C19_eventually_batched_rounds : forall p accts univ s k, reachable p accts univ s ->
+  len (unb s (batched s)) <= N.of_nat k * batch_size p ->
+  forall a n t, item_at s (a, n) = Some t -> n < get_pn s a -> ~ In (a, n) (batched s) ->
+  exists b, In b (snd (drain cfg_fixed p k s)) /\ In t (snd b).
+Proof. exact eventually_batched. Qed.
+Print Assumptions C19_eventually_batched_rounds.
+
+(** "once all lower nonces of its account are present": the pending nonce is exactly the first
+    missing nonce from the commit nonce, so such a transaction is below the pending nonce = ready *)
+Theorem C19_pending_nonce_exact_trace : forall p accts univ ops i, good_history accts univ ops ->
+  ~ In (E_pending, i) (model_fails p accts univ ops).
+Proof. exact (fun p accts univ ops i => code_never p accts univ ops E_pending i). Qed.
+Print Assumptions C19_pending_nonce_exact_trace.
+
 Theorem C19_pending_nonce_exact : forall p accts univ s, reachable p accts univ s -> forall a,
   get_cn s a <= get_pn s a /\
   (forall n, get_cn s a <= n < get_pn s a -> item_at s (a, n) <> None) /\
@@ -15,19 +55,27 @@ Theorem C19_pending_nonce_exact : forall p accts univ s, reachable p accts univ 
 Proof. exact pending_nonce_exact. Qed.
 Print Assumptions C19_pending_nonce_exact.
 
-(** a held, ready, unbatched transaction exists => HasPendingRequest *)
+(** a ready, not yet batched transaction exists => HasPendingRequest *)
+Theorem C19_pending_flag_trace : forall p accts univ ops i, good_history accts univ ops ->
+  ~ In (E_flag, i) (model_fails p accts univ ops).
+Proof. exact (fun p accts univ ops i => code_never p accts univ ops E_flag i). Qed.
+Print Assumptions C19_pending_flag_trace.
+
 Theorem C19_pending_flag : forall p accts univ s, reachable p accts univ s -> forall a n,
   item_at s (a, n) <> None -> n < get_pn s a -> ~ In (a, n) (batched s) -> has_pending s = true.
 Proof. exact pending_flag. Qed.
 Print Assumptions C19_pending_flag.
 
-(** the counter never under-counts the ready unbatched transactions *)
 Theorem C19_counter_sound : forall p accts univ s, reachable p accts univ s -> len (unb s (batched s)) <= pnbs s.
 Proof. exact counter_sound. Qed.
 Print Assumptions C19_counter_sound.
 
-(** held transactions are retrievable by their hash, lookups never return another transaction,
-    and no hash is counted whose slot has left the pool *)
+(** the pool reports its content truthfully *)
+Theorem C19_truthful_trace : forall p accts univ ops i, good_history accts univ ops ->
+  ~ In (E_lookup, i) (model_fails p accts univ ops) /\ ~ In (E_stale, i) (model_fails p accts univ ops).
+Proof. exact (fun p accts univ ops i H => conj (code_never p accts univ ops E_lookup i H) (code_never p accts univ ops E_stale i H)). Qed.
+Print Assumptions C19_truthful_trace.
+
 Theorem C19_held_retrievable : forall p accts univ s, reachable p accts univ s -> forall sl t,
   item_at s sl = Some t -> slot_of t = sl /\ get_tx cfg_fixed s t = Some t.
 Proof. exact held_retrievable. Qed.
@@ -41,19 +89,6 @@ Theorem C19_no_stale_hash : forall p accts univ s, reachable p accts univ s -> f
   alookup tx_eqb h (hashmap s) = Some sl -> sl = slot_of h /\ item_at s sl <> None.
 Proof. exact hashmap_live. Qed.
 Print Assumptions C19_no_stale_hash.
-
-(** liveness, one round: a batch generation takes exactly min(ready unbatched, batch size)
-    transactions; when the ready unbatched ones fit into one batch it takes all of them.
-    PARTIAL with respect to the property text: the multi-round statement ("within
-    ceil(ready/batchSize) rounds of generate + commit of that batch") is checked on every trace by
-    the judge predicate [E_liveness] and follows from this lemma plus commit_inv by induction on the
-    rounds; that induction is not yet closed as a Coq theorem. *)
-Theorem C19_eventually_batched_partial : forall p accts univ s, reachable p accts univ s ->
-  len (gen_slots p s) = N.min (len (unb s (batched s))) (batch_size p) /\
-  (len (unb s (batched s)) <= batch_size p -> len (unb s (batched s)) <= pnbs s ->
-   forall k, In k (priority s) -> In (snd k) (batched s) \/ In (snd k) (gen_slots p s)).
-Proof. exact generate_progress. Qed.
-Print Assumptions C19_eventually_batched_partial.
 
 Theorem C19_P_b_spec : forall p accts univ tr, P_b p accts univ C19_codes tr = true <-> P p accts univ C19_codes tr.
 Proof. exact P_b_spec_C19. Qed.
@@ -83,6 +118,9 @@ Theorem C19_lookup_hash_refuted :
   Witness.fails cfg_fixed Witness.h_lookup Witness.u_lookup = [].
 Proof. exact lookup_hash_refuted. Qed.
 Print Assumptions C19_lookup_hash_refuted.
+
+Example C19_example_hypotheses : good_history Witness.accts Witness.u_good Witness.h_good.
+Proof. exact good_history_is_good. Qed.
 
 Example C19_example : Witness.fails cfg_fixed Witness.h_good Witness.u_good = [].
 Proof. exact (proj1 good_history_example). Qed.
